@@ -38,8 +38,8 @@ theorem afterAlloc_step (w : World) (P0 : List Op) (cfg : EncCfg) (hdr : EncHdr)
     (Opus.CeltBands.fineLoop cfg.C (hdr.alloc.bands.map (·.ebits)) d) = d1 at a ⊢
   -- the anti-collapse bit
   have b : Ext0 e1.s (if hdr.antiCollapseRsv > 0 then (e1.raw 1).2 else e1).s ∧
-      (Sim w P0 e1 d1 → w.IsPrefix (P0 ++ (if hdr.antiCollapseRsv > 0 then (e1.raw 1).2 else e1).s.ops) →
-        Sim w P0 (if hdr.antiCollapseRsv > 0 then (e1.raw 1).2 else e1) (if hdr.antiCollapseRsv > 0 then (d1.raw 1).2 else d1)) := by
+      (∀ {A : List Op}, Sim w P0 A e1 d1 → w.IsPrefix (P0 ++ (if hdr.antiCollapseRsv > 0 then (e1.raw 1).2 else e1).s.ops) →
+        Sim w P0 A (if hdr.antiCollapseRsv > 0 then (e1.raw 1).2 else e1) (if hdr.antiCollapseRsv > 0 then (d1.raw 1).2 else d1)) := by
     by_cases hc : hdr.antiCollapseRsv > 0
     · simp only [hc, if_true]
       exact (raw_step w P0 1).snd e1 d1
@@ -55,6 +55,52 @@ theorem afterAlloc_step (w : World) (P0 : List Op) (cfg : EncCfg) (hdr : EncHdr)
   obtain ⟨t, _⟩ := s2.tells p2
   rw [t]
   exact c.2 s2 hp
+
+/-! ### The decoder model's trace -/
+
+open Opus.CeltSyms (CEv)
+
+/-- the events C03's model records for one encoder call, with the encoder's values: `ec_dec_uint`, `ec_dec_bits` and
+    `ec_dec_bit_logp` return the coded value; `ec_decode` returns a point of the coded interval and `ec_dec_update` is
+    called with the encoder's `fl`, `fh`, `ft` -/
+def EvOk : Op → List CEv → Prop
+  | .uint v ft, evs => evs = [.uint ft v]
+  | .bits v n, evs => evs = [.raw n v]
+  | .bitLogp v logp, evs => evs = [.bit logp (if v ≠ 0 then 1 else 0)]
+  | .encode fl fh ft, evs => ∃ fs, fl ≤ fs ∧ fs < fh ∧ evs = [.dec ft fs, .upd fl fh ft]
+  | _, evs => evs = []
+
+/-- a trace that is, call by call, what the encoder's calls `ops` stand for -/
+def TraceOk : List Op → List CEv → Prop
+  | [], evs => evs = []
+  | op :: r, evs => ∃ e1 e2, evs = e1 ++ e2 ∧ EvOk op e1 ∧ TraceOk r e2
+
+theorem evOf_ok (w : World) (P : List Op) (op : Op) (h : w.IsPrefix (P ++ [op])) : EvOk op (evOf (w.decAt P) op) := by
+  obtain ⟨m, _⟩ := w.next P op h
+  cases op with
+  | uint v ft => show _ = _; have m' : (decUint (w.decAt P) ft).1 = v := m; simp only [evOf, m']
+  | bits v n => show _ = _; have m' : (decBits (w.decAt P) n).1 = v := m; simp only [evOf, m']
+  | bitLogp v logp =>
+    show _ = _
+    have m' : (decBitLogp (w.decAt P) logp).1 = if v ≠ 0 then 1 else 0 := m
+    simp only [evOf, m']
+  | encode fl fh ft =>
+    have m' : fl ≤ (RangeCoder.decode (w.decAt P) ft).1 ∧ (RangeCoder.decode (w.decAt P) ft).1 < fh := m
+    exact ⟨_, m'.1, m'.2, rfl⟩
+  | encodeBin _ _ _ => rfl
+  | icdf _ _ _ => rfl
+  | icdf16 _ _ _ => rfl
+  | patchInitial _ _ => rfl
+  | shrink _ => rfl
+
+theorem traceOk_evs (w : World) : ∀ (δ P : List Op), w.IsPrefix (P ++ δ) → TraceOk δ (evsFrom w P δ)
+  | [], _, _ => rfl
+  | op :: r, P, h => by
+    have h1 : w.IsPrefix (P ++ [op]) := by
+      have : P ++ op :: r = (P ++ [op]) ++ r := by simp
+      rw [this] at h; exact World.isPrefix_of_append h
+    have h2 : w.IsPrefix ((P ++ [op]) ++ r) := by simpa using h
+    exact ⟨_, _, rfl, evOf_ok w P op h1, traceOk_evs w r (P ++ [op]) h2⟩
 
 /-- the band data only appends calls -/
 theorem afterAlloc_ext (w : World) (P0 : List Op) (cfg : EncCfg) (hdr : EncHdr) (e : ESt) :
@@ -89,6 +135,10 @@ structure FrameAgree (w : World) (P0 : List Op) (cfg : EncCfg) (fr : Opus.CeltBa
       { rem := 0, c := w.decAt (P0 ++ fr.hdr.ops), tr := [], fault := false }).c = w.decAt (P0 ++ fr.ops)
   noFault : (Opus.CeltBands.afterAlloc (cfgD cfg) w.len dh fr.hdr.alloc
       { rem := 0, c := w.decAt (P0 ++ fr.hdr.ops), tr := [], fault := false }).fault = false
+  /-- the decoder model's trace of entropy-decoder calls (in call order) is the encoder's call list behind the
+      allocation with the encoder's values -/
+  trace : ∃ δ, fr.ops = fr.hdr.ops ++ δ ∧ TraceOk δ (Opus.CeltBands.afterAlloc (cfgD cfg) w.len dh fr.hdr.alloc
+      { rem := 0, c := w.decAt (P0 ++ fr.hdr.ops), tr := [], fault := false }).tr.reverse
   /-- `OPUS_GET_FINAL_RANGE` agrees -/
   rngFin : (Opus.CeltBands.afterAlloc (cfgD cfg) w.len dh fr.hdr.alloc
       { rem := 0, c := w.decAt (P0 ++ fr.hdr.ops), tr := [], fault := false }).c.rng = fr.fin.rng
@@ -126,11 +176,15 @@ theorem frame_roundtrip (w : World) (P0 : List Op) (cfg : EncCfg) (s0 : St) (hs0
     have st := afterAlloc_step w P0 cfg h dh w.len hlen ag.isTransient ag.tfRes ag.antiCollapseRsv
       { rem := 0, s := { e := h.enc, ops := h.ops, ds := h.rest } }
       { rem := 0, c := w.decAt (P0 ++ h.ops), tr := [], fault := false }
-    have sim := st.2 ⟨⟨ag.encAtBands, rfl⟩, rfl⟩ hp
+    have sim := st.2 (A := h.ops) ⟨⟨ag.encAtBands, rfl⟩, rfl, ⟨[], by simp, rfl⟩⟩ hp
     obtain ⟨t1, t2, _, _⟩ := w.sync _ hp
-    refine ⟨dh, hd, ⟨ag, hx, sim.here.enc, sim.here.dec, ?_, ?_, ?_, ?_⟩⟩
+    refine ⟨dh, hd, ⟨ag, hx, sim.here.enc, sim.here.dec, ?_, ?_, ?_, ?_, ?_⟩⟩
     · exact Opus.CeltBandsProofs.afterAlloc_fault (cfgD cfg) w.len dh h.alloc _ (by have := hcfg.2.2.2; show cfg.LM < 4; omega)
         (by show cfg.start ≤ cfg.end_; have := hcfg.1; omega) hcfg.2.1 rfl
+    · obtain ⟨B, hB, hT⟩ := sim.tr
+      refine ⟨B, hB, ?_⟩
+      rw [hT]
+      exact traceOk_evs w B (P0 ++ h.ops) (by rw [List.append_assoc, ← hB]; exact hp)
     · rw [sim.here.dec, sim.here.enc]; exact w.sync_rng _ hp
     · rw [sim.here.dec, sim.here.enc]; exact t1
     · rw [sim.here.dec, sim.here.enc]; exact t2
